@@ -175,7 +175,7 @@ def check_assignment(sc, obstacles, rings, ctx, tag, only_ids=None, registry=Tru
 # ------------------------------------------------------------------------------------------------ assign facet
 @st.composite
 def s_assign(draw, tier=None):
-    net = draw(gs.network_recipe(max_lanelets=6))
+    net = gs.maybe_twin(draw, draw(gs.network_recipe(max_lanelets=6)))
     obs = [draw(obstacle(500 + i, net)) for i in range(draw(st.integers(1, 5)))]
     subset = draw(st.one_of(st.none(), st.lists(st.sampled_from([o["id"] for o in obs]), min_size=1, unique=True)))
     return {"net": net, "obs": obs, "subset": subset, "order": draw(st.sampled_from(["network-first",
@@ -226,7 +226,7 @@ def check_assign(r, ctx):
 # ------------------------------------------------------------------------------------------------ file facet
 @st.composite
 def s_file(draw, tier=None):
-    net = c06.round_net(draw(gs.network_recipe(max_lanelets=5, profile={"min_types": 1})))
+    net = c06.round_net(gs.maybe_twin(draw, draw(gs.network_recipe(max_lanelets=5, profile={"min_types": 1}))))
     fmt = draw(st.sampled_from(["xml", "pb"]))
     obs = []
     for i in range(draw(st.integers(1, 4))):
@@ -275,7 +275,7 @@ def check_file(r, ctx):
 # ------------------------------------------------------------------------------------------------ histories
 @st.composite
 def s_history(draw, tier=None):
-    net = draw(gs.network_recipe(max_lanelets=4))
+    net = gs.maybe_twin(draw, draw(gs.network_recipe(max_lanelets=4)))
     extra = draw(gs.network_recipe(ids=gs.Ids([800 + i for i in range(30)]), max_lanelets=2))
     pool = [draw(obstacle(500 + i, net)) for i in range(draw(st.integers(2, 5)))]
     op = st.one_of(
